@@ -10,11 +10,11 @@ BASE_ONLY = ["proto", "bear"]          # live on BaseObj: decide whether the las
 
 
 class Obj:
-    def __init__(self, oid, parent, own):
-        self.oid, self.parent, self.own = oid, parent, own   # parent: Obj | "Obj" | "BaseObj"
+    def __init__(self, oid, parent, own, name=None):
+        self.oid, self.parent, self.own, self.name = oid, parent, own, name   # parent: Obj | "Obj" | "BaseObj"
 
     def var(self):
-        return "o%d" % self.oid
+        return self.name or "o%d" % self.oid
 
     def chain(self):
         out, cur = [], self
@@ -45,7 +45,7 @@ def val_repr(kind, oid, name, recv, arg):
 
 
 def gen_forest(rng, nobj):
-    objs, lines = [], []
+    objs, lines, extra = [], [], []
     for i in range(1, nobj + 1):
         own = {}
         for n in rng.sample(NAMES, rng.randint(0, 3)):
@@ -56,7 +56,14 @@ def gen_forest(rng, nobj):
             pairs.append('_missing: {|self, name, x| ["miss%d", self.tag, name, x]}' % i)
             own["_missing"] = "m"
         lit = "{" + ", ".join(pairs) + "}"
-        how = rng.choice(["lit", "bear", "bear", "bro", "basebear"]) if objs else rng.choice(["lit", "basebear"])
+        how = rng.choice(["lit", "bear", "bear", "bro", "basebear", "bearvar", "brovar"]) if objs else rng.choice(["lit", "basebear"])
+        srcobj = None
+        if how in ("bearvar", "brovar"):
+            # the source object of bear / bro is kept in a variable and stays what it was: a child of Obj
+            lines.append("s%d := %s" % (i, lit))
+            lit = "s%d" % i
+            srcobj = Obj(i, "Obj", dict(own, tag="t"), name="s%d" % i)
+            how = how[:-3]
         if how == "lit":
             parent = "Obj"
             lines.append("o%d := %s" % (i, lit))
@@ -78,12 +85,25 @@ def gen_forest(rng, nobj):
         o = Obj(i, parent, own)
         o.own["tag"] = "t"
         objs.append(o)
-    return objs, lines
+        if srcobj:
+            extra.append(srcobj)
+    return objs, lines, extra
 
 
-def queries(rng, objs):
+def deep_chain(depth, with_missing):
+    """a chain of `depth` bear levels below a literal root: the search has no depth limit"""
+    lines = ["o1 := {tag: 1, a: 100, f: %s%s}" % (prop_src("f", 1, "f"),
+                                                  ', _missing: {|self, name, x| ["miss1", self.tag, name, x]}' if with_missing else "")]
+    objs = [Obj(1, "Obj", dict({"tag": "t", "a": "v", "f": "f"}, **({"_missing": "m"} if with_missing else {})))]
+    for i in range(2, depth + 2):
+        lines.append("o%d := o%d.bear({tag: %d})" % (i, i - 1, i))
+        objs.append(Obj(i, objs[-1], {"tag": "t"}))
+    return objs, lines, []
+
+
+def queries(rng, objs, only=None):
     qs = []   # (query source, expected print or ('err', kind, msg))
-    for o in objs:
+    for o in (only if only is not None else objs):
         users, root = o.chain()
         has_obj = root == "Obj"
         missing_owner, _ = o.find("_missing")
@@ -120,7 +140,11 @@ def queries(rng, objs):
             qs.append(("%s.which('keys)['_name]" % o.var(), '"Obj"'))
             qs.append(("%s.which('proto)['_name]" % o.var(), '"BaseObj"'))
             other = rng.choice(objs)
+            if other.oid == o.oid:
+                other = o          # kindOf? compares with ==: the kept source object of bear equals its twin
             qs.append(("%s.kindOf?(%s)" % (o.var(), other.var()), "true" if other in users else "false"))
+            qs.append(("%s.ancestors.len" % o.var(), str(len(anc) + 2)))
+            qs.append(("%s.kindOf?(%s)" % (o.var(), users[-1].var()), "true"))
             qs.append(("%s.kindOf?(Obj)" % o.var(), "true"))
             qs.append(("%s.kindOf?(Int)" % o.var(), "false"))
         else:
@@ -145,9 +169,13 @@ def main(chk):
         forests.append(gen_forest(rng, rng.randint(2, 8)))
     progs, meta = [], []
     preludes = []
-    for objs, lines in forests:
+    for depth in (15, 17, 33):
+        objs, lines, _ = deep_chain(depth, depth % 2 == 0)
+        forests.append((objs, lines, [objs[-1], objs[len(objs) // 2]]))
+    for objs, lines, extra in forests:
         pre = "\n".join(lines) + "\n"
-        for q, exp in queries(rng, objs):
+        deep = len(objs) > 12
+        for q, exp in queries(rng, objs, only=extra if deep else None) + ([] if deep else queries(rng, objs + extra, only=extra)):
             progs.append(pre + q + "\n")
             meta.append((q, exp))
     res = pancore.run_programs(chk, progs, cmp_msg=True)
